@@ -101,3 +101,30 @@ def component_setNumberDensity_reads_back_with_composition_dependent_expansion(a
     except RuntimeError:
         return  # a correlation without expansion between T0 and T is refused loudly by getThermalExpansionFactor
     assert eq(comp.getNumberDensity("A"), x) and eq(comp.getNumberDensity("B"), b), "the touched nuclide reads back the requested value, every other nuclide is unchanged"
+
+
+# ----------------------------------------------------------------------------- NEW finding: Cartesian full core
+Core = repo("armi.reactor.reactors:Core")
+Composite = repo("armi.reactor.composites:Composite")
+CartesianBlock = repo("armi.reactor.blocks:CartesianBlock")
+geometry = repo("armi.reactor.geometry")
+
+
+class Loc:
+    def getCompleteIndices(self):
+        return self.ijk
+
+
+class SymGrid:
+    """stand-in core grid: only its symmetry (a real geometry.SymmetryType) is read"""
+
+
+@lemma(gen={"i": (-3, 3), "j": (-3, 3), "k": (0, 5)})
+def cartesian_block_in_a_full_core_is_not_cut(i: int, j: int, k: int):
+    """In a FULL-core Cartesian model no block is cut by a symmetry line, so the factor must be 1 wherever the block sits -
+    also when the grid is centred on an assembly ("full core through center assembly", a valid symmetry).
+    CartesianBlock.getSymmetryFactor looks only at isThroughCenterAssembly, not at the domain: 4 at (0,0), 2 on i == 0 or j == 0."""
+    core = new(Core, name="core", parent=None, spatialGrid=new(SymGrid, symmetry=geometry.SymmetryType.fromStr("full core through center assembly")), _children=[])
+    a = new(Composite, name="a", parent=core, _children=[])
+    b = new(CartesianBlock, name="b", parent=a, spatialLocator=new(Loc, grid=None, ijk=(i, j, k)), _children=[])
+    assert b.getSymmetryFactor() == 1.0, "a block of a full-core model is whole"
